@@ -400,12 +400,16 @@ func (gb *gcpBalancer) getReadySubConnRef(boundKey string) (*subConnRef, bool) {
 }
 
 func (gb *gcpBalancer) getSubConnRoundRobin(ctx context.Context) *subConnRef {
-	if len(gb.scRefList) == 0 {
+	gb.mu.RLock()
+	empty := len(gb.scRefList) == 0
+	gb.mu.RUnlock()
+	if empty {
 		gb.newSubConn()
 	}
-	scRef := gb.scRefList[atomic.AddUint32(&gb.rrRefId, 1)%uint32(len(gb.scRefList))]
 
+	// scRefList is appended to under the write lock.
 	gb.mu.RLock()
+	scRef := gb.scRefList[atomic.AddUint32(&gb.rrRefId, 1)%uint32(len(gb.scRefList))]
 	if state := gb.scStates[scRef.subConn]; state == connectivity.Ready {
 		gb.mu.RUnlock()
 		return scRef
@@ -590,9 +594,6 @@ func (gb *gcpBalancer) UpdateSubConnState(sc balancer.SubConn, scs balancer.SubC
 // refresh initiates a new SubConn for a specific subConnRef and starts connecting.
 // If the refresh is already initiated for the ref, then this is a no-op.
 func (gb *gcpBalancer) refresh(ref *subConnRef) {
-	if ref.refreshing {
-		return
-	}
 	gb.mu.Lock()
 	defer gb.mu.Unlock()
 	if ref.refreshing {
